@@ -85,6 +85,8 @@ def cases(draw):
     if not model['default'] and not model['install']:
         decor['yacc'] = draw(st.sampled_from([None, 'one-first',
                                               'pair-first']))
+        if draw(st.integers(0, 2)) == 0:
+            decor['wide'] = draw(st.sampled_from([17, 18, 33, 35, 52]))
     model['decor'] = decor
     conf = []
     mode = draw(st.sampled_from(['both', 'shared', 'static', 'default']))
